@@ -95,6 +95,12 @@ def build(ctx, rule):
         m.dec = _Func(m.dec.module, m.dec.qualname, ast.fix_missing_locations(node_), m.dec.cls, m.dec.parent)
     m.returns = [r for r in walk_own(m.dec.node) if isinstance(r, ast.Return)]
     arity = {len(r.value.elts) for r in m.returns if isinstance(r.value, ast.Tuple)}
+    if len(arity) > 1 and isinstance(m.call_stmt.targets[0], ast.Tuple):
+        from .common import key_of as _key_of
+
+        for r in m.returns:
+            if isinstance(r.value, ast.Tuple) and len(r.value.elts) != len(m.targets):
+                ctx.violated(rule if "." in rule else "R18.1", m.dec.where(r), f"this return hands back {len(r.value.elts)} values but the chromosome loop unpacks {len(m.targets)} (`{', '.join(m.targets)[:60]} = ...`): a component that leaves through it raises ValueError and aborts the whole command instead of being skipped", _key_of(m.dec, f"return-arity:{len(r.value.elts)}!={len(m.targets)}"))
     if len(arity) != 1 or any(not isinstance(r.value, ast.Tuple) for r in m.returns):
         raise AnalysisError(rule, m.dec.where(), f"return statements do not all return tuples of one arity ({arity})")
     m.arity = arity.pop()
